@@ -50,6 +50,9 @@ pub enum NStep {
     /// the peer pushes its (empty) registry snapshot, as a node does 30 s after it joined and in answer to a pull: the
     /// receiver merges it and re-examines the range it is responsible for
     PeerSnapshot,
+    /// the node's share of the service keys changes (what the cluster layer tells the registry when a peer joins, leaves or
+    /// comes back): ClusterRefreshProcessRange(index, len). Instances the node holds as its own keep their time-outs
+    RangeRefresh { index: u8, len: u8 },
     /// outcome of the TCP probe of a persistent instance (what the NetSniffing actor reports; the connection
     /// attempt itself is outside the seams)
     Probe { svc: u8, ip: u8, ok: bool },
@@ -349,6 +352,12 @@ pub async fn exec_naming(id: &'static str, script: Value) -> ExecResult {
                     }
                 }
                 NStep::Advance { .. } => {}
+                NStep::RangeRefresh { index, len } => {
+                    let len = (*len % 3 + 1) as usize;
+                    let r = rnacos::naming::cluster::model::ProcessRange::new(*index as usize % len, len);
+                    let _ = n.app.naming_addr.send(NamingCmd::ClusterRefreshProcessRange(r)).await;
+                    sim::count("probe.range_refresh", 1);
+                }
                 NStep::PeerUpd { .. } | NStep::PeerDel { .. } | NStep::PeerClientGone { .. } | NStep::PeerDistro { .. } | NStep::PeerSnapshot => {
                     use rnacos::naming::cluster::model::NamingRouteRequest;
                     let mut ext = std::collections::HashMap::new();
@@ -698,8 +707,10 @@ fn gen_nsteps(rng: &mut Rng, n: u64, bias: &str) -> Vec<NStep> {
                     NStep::GrpcReg { conn: rng.below(3) as u8, svc, ip, eph: true, enabled: true, weight: 0 }
                 } else if r < 68 {
                     NStep::Probe { svc, ip, ok: rng.chance(0.4) }
-                } else if r < 72 {
+                } else if r < 71 {
                     NStep::PeerSnapshot
+                } else if r < 74 {
+                    NStep::RangeRefresh { index: rng.below(3) as u8, len: rng.below(3) as u8 }
                 } else {
                     NStep::Advance { ms: *rng.pick(&[500u64, 2000, 4000, 9000, 20000, 45000]) }
                 }
